@@ -172,11 +172,11 @@ PROPS["C16"] = _std(
 PROPS["C13"] = _std(
     "model_checking",
     "explicit-state BFS over batches built by append / duplicate / swap from a menu of honest and singly corrupted entries (key->other honest key, message bit, R->other honest R, R undecodable, S+l, S->other honest S): every state = verify_batch called twice, compared with the conjunction of the model's single verifications (and the real single verifier with the model), "
-    "plus every slice-length triple for short batches; large batches at n in {64,94,95,96,250} (Straus/Pippenger switch at 2n+1 = 190) with one corrupted entry at first/middle/last position. distinct_nontrivial = distinct batches.",
+    "plus every slice-length triple for short batches; large batches at n in {64,94,95,96,250} (Straus/Pippenger switch at 2n+1 = 190, Pippenger window switches at 2n+1 = 500 and 800) with one corrupted entry at first/middle/last position. distinct_nontrivial = distinct batches.",
     "Explicit-state exploration of batch construction histories against the conjunction of RFC 8032 single verifications.",
     "DESIGN.md section 4, C13",
     "explicit-state BFS over batch histories against a reference model",
-    lambda tier: [R("simd")] if tier == "quick" else [R("simd"), R("simd", dispatch="serial"), R("serial32"), R("fiat64"), R("avx512")],
+    lambda tier: [R("simd"), R("simd", dispatch="serial")] if tier == "quick" else [R("simd"), R("simd", dispatch="serial"), R("serial32"), R("fiat64"), R("avx512"), R("avx512", dispatch="avx2")],
 )
 
 PROPS["C15"] = _std(
@@ -199,4 +199,156 @@ PROPS["C17"] = _std(
     "DESIGN.md section 4, C17",
     "exhaustive alphabet enumeration against the reference model",
     lambda tier: [R("simd")] if tier == "quick" else [R("simd"), R("simd", dispatch="serial"), R("serial32"), R("fiat32"), R("fiat64"), R("avx512")],
+)
+
+
+# ---------------------------------------------------------------------------------------------
+# cross-configuration comparison (C05, C11a)
+# ---------------------------------------------------------------------------------------------
+import json as _json, os as _os, subprocess as _sp
+
+STREAMS = ["C02", "C03", "C04", "C06", "C07", "C08", "C09", "C16"]
+
+
+def _locate_divergence(sub, tier, ra, rb, bins, scratch, tables_only):
+    """Re-run two configurations with transcripts and return the first differing request."""
+    outs = []
+    for tag, r in (("a", ra), ("b", rb)):
+        t = _os.path.join(scratch, "transcript_%s_%s.txt" % (sub, tag))
+        o = _os.path.join(scratch, "transcript_%s_%s.json" % (sub, tag))
+        cmd = [bins[(r["config"], r["variant"])], sub, "--tier", r.get("tier", tier), "--out", o, "--dispatch", r.get("dispatch", "auto"), "--transcript", t]
+        _sp.run(cmd, stdout=_sp.PIPE, stderr=_sp.STDOUT)
+        d = {}
+        for line in open(t):
+            k, _, v = line.rstrip("\n").partition("\t")
+            if tables_only != k.startswith("T:"):
+                continue
+            d[k] = v
+        outs.append(d)
+    a, b = outs
+    for k in sorted(set(a) | set(b)):
+        if a.get(k) != b.get(k):
+            return {"request": k, "reply_a": a.get(k), "reply_b": b.get(k)}
+    return {"request": None}
+
+
+def digest_compare(pid, tier, partials, scratch, bins):
+    """Group the sub-runs by (stream, legacy flag); all digests in a group must be equal."""
+    groups = {}
+    for j in partials:
+        r = j["run"]
+        sub = r.get("prop", pid)
+        if sub not in STREAMS:
+            continue
+        legacy = bool(j["config"].get("legacy"))
+        groups.setdefault((sub, legacy), []).append(j)
+    violations = []
+    compared = 0
+    requests = 0
+    distinct = set()
+    for (sub, legacy), js in sorted(groups.items()):
+        ref = js[0]
+        for kind in ("digest", "tdigest"):
+            cand = js if kind == "digest" else [j for j in js if j["config"].get("tables")]
+            if len(cand) < 2:
+                continue
+            ref = cand[0]
+            for j in cand[1:]:
+                compared += 1
+                requests += j[kind + "_n"]
+                distinct.add((sub, j[kind]))
+                if j[kind] != ref[kind] or j[kind + "_n"] != ref[kind + "_n"]:
+                    loc = _locate_divergence(sub, tier, ref["run"], j["run"], bins, scratch, kind == "tdigest")
+                    violations.append({
+                        "property": pid,
+                        "key": "cross_config.%s.%s" % (sub, (loc.get("request") or "?").split("/")[0]),
+                        "what": "configurations %s and %s answer differently on the %s request stream: %s" % (
+                            _cfgname(ref["run"]), _cfgname(j["run"]), sub, _json.dumps(loc)[:600]),
+                        "case": {"kind": "cross_config", "stream": sub, "a": ref["run"], "b": j["run"], "divergence": loc},
+                        "config": j["run"],
+                    })
+    cov = {"digest_comparisons": compared, "requests_compared": requests,
+           "groups": [{"stream": s, "legacy": l, "configurations": [_cfgname(j["run"]) for j in js],
+                       "requests": js[0]["digest_n"], "digest": js[0]["digest"]} for (s, l), js in sorted(groups.items())]}
+    return {"violations": violations, "coverage": cov, "evaluations": 0, "distinct_nontrivial": len(distinct)}
+
+
+def _cfgname(r):
+    return "%s/%s/%s" % (r["config"], r["variant"], r.get("dispatch", "auto"))
+
+
+def _c05_runs(tier):
+    if tier == "quick":
+        cfgs = [R("simd"), R("simd", dispatch="serial"), R("serial32", "rel-notables")]
+        streams = ["C02", "C04", "C07", "C08", "C09", "C16"]
+    else:
+        cfgs = []
+        for v in ("rel", "rel-notables"):
+            cfgs += [R("simd", v), R("simd", v, dispatch="serial"), R("serial64", v), R("serial32", v), R("fiat64", v), R("fiat32", v),
+                     R("avx512", v), R("avx512", v, dispatch="avx2"), R("avx512", v, dispatch="serial")]
+        cfgs += [R("simd", "rel-legacy"), R("serial32", "rel-legacy")]
+        streams = STREAMS
+    out = []
+    for c in cfgs:
+        for s in streams:
+            d = dict(c)
+            d["prop"] = s
+            d["tier"] = "quick"
+            d["threads"] = 4
+            out.append(d)
+    return out
+
+
+PROPS["C05"] = _std(
+    "exploration",
+    "the union of the public-API request streams of the C02/C03/C04/C06/C07/C08/C09/C16 explorers (every request is keyed by operation and arguments; replies are result bytes and accept/reject bits) is replayed on every configuration: 6 backend builds, run-time dispatch forced to each implementation a build contains, precomputed tables on/off, legacy on/off; "
+    "order-independent digests of (request, reply) pairs are compared, and a mismatch is bisected to the single request by transcript diff. Each stream is also checked against the reference model on every configuration, so an agreeing-but-wrong answer is a violation too. distinct_nontrivial = distinct (stream, digest) pairs seen (1 per stream when all configurations agree).",
+    "Differential exploration across all buildable configurations on structured request streams; forced dispatch proves which implementation executed.",
+    "DESIGN.md section 4, C05",
+    "exhaustive replay of structured request streams on every configuration with digest comparison and transcript bisection",
+    _c05_runs,
+    post=digest_compare,
+    parallel=4,
+)
+
+
+def _c11_runs(tier):
+    if tier == "quick":
+        cfgs = ["simd", "serial32"]
+        streams = ["C02", "C03", "C04", "C07", "C08", "C09"]
+        kernels = ["C01"]
+    else:
+        cfgs = ALL_BACKENDS
+        streams = ["C02", "C03", "C04", "C06", "C07", "C08", "C09", "C13", "C16", "C17"]
+        kernels = ["C01"]
+    out = []
+    for c in cfgs:
+        for s in streams:
+            for v in ("chk", "rel"):
+                out.append(R(c, v, prop=s, tier="quick", threads=4))
+        if c in ("simd", "avx512"):
+            for s in streams[:4]:
+                out.append(R(c, "chk", dispatch="serial", prop=s, tier="quick", threads=4))
+        if c == "avx512":
+            for s in streams[:4]:
+                out.append(R(c, "chk", dispatch="avx2", prop=s, tier="quick", threads=4))
+        for k in kernels:
+            out.append(R(c, "chk", prop=k, tier=tier, threads=4))
+        if tier != "quick":
+            out.append(R(c, "chk-notables", prop="C04", tier="quick", threads=4))
+    return out
+
+
+PROPS["C11"] = _std(
+    "model_checking",
+    "(a) the request streams of the functional explorers (field/scalar/point machines, scalar-multiplication alphabets, X25519, signing/verification) are replayed on builds with overflow checks and debug assertions enabled: any panic is a violation, and order-independent reply digests must equal those of the release build of the same configuration; "
+    "(b) the field register machine and the complete limb-lattice products (all limbs simultaneously at 0 / mask / documented headroom bound) run on the checked build, so every serial kernel is entered at its contract boundary with overflow checks on, and the 4-lane vector kernels are entered at their documented lane bounds with the value compared against the model (a wrapped lane changes the value). "
+    "distinct_nontrivial = distinct machine states + distinct stream digests.",
+    "Explicit-state exploration and lattice enumeration on checked builds, differential against release builds, per backend and forced dispatch.",
+    "DESIGN.md section 4, C11",
+    "explicit-state BFS and limb-lattice enumeration on overflow-checked builds + checked/release digest comparison",
+    _c11_runs,
+    post=digest_compare,
+    parallel=4,
+    level_note="Layer (c) of the design (adversarial reduction environment / saturation tapes) is not built in this round; see DESIGN.md. Decides the property for the enumerated lattice and streams only.",
 )
